@@ -92,6 +92,14 @@ CLAIMS['C15'] = ('other',
     'handler emits description / reference / organization / contact-info iff text generation is on and the source text is '
     'non-empty, and emits them unchanged. The pysnmp clause (string literals produced by the Jinja2 template) is not decided, '
     'hence level other.', HANDLER_NOTE + ' Known finding D26 (DISPLAY-HINT and PRODUCT-RELEASE bypass the filter).', '5 C15')
+CLAIMS['C11'] = ('other',
+    'Every token rule is verified against its own regular expression: error rules raise the package error with the '
+    'token line, line accounting (lineno delta = number of line terminators of the lexeme, for every lexeme of the rule), '
+    'state switches; p_error raises for a token and for end of input; parse() lets only lexer/parser errors through and '
+    'resets the lexer on every exit; class invariant: every lexer state has an error rule or total rules, no rule accepts '
+    'the empty string. "For any input text" reduces to PLY driving these rules, which is trusted, hence level other.',
+    'Trusted: PLY lexer/yacc drivers, re (the z3 translation of the token regexes agrees with re on the subset used), '
+    're.findall line-terminator count.', '5 C11')
 NOT_YET = {
 }
 
